@@ -38,10 +38,19 @@ type pipe struct {
 	flipAt   int64 // >0: the byte with this (1-based) index is corrupted
 	onCut    func()
 	fired    bool
+	stallW   bool          // writes into this pipe block (the peer does not read and its window is full)
+	wch      chan struct{} // wakes blocked writers
 	rdl, wdl time.Time
 }
 
-func newPipe() *pipe { return &pipe{ch: make(chan struct{}, 1)} }
+func newPipe() *pipe { return &pipe{ch: make(chan struct{}, 1), wch: make(chan struct{}, 1)} }
+
+func (p *pipe) wakeWriters() {
+	select {
+	case p.wch <- struct{}{}:
+	default:
+	}
+}
 
 func (p *pipe) signal() {
 	select {
@@ -150,7 +159,21 @@ func (c *Conn) Write(b []byte) (int, error) {
 		return 0, net.ErrClosed
 	}
 	p := c.wr
-	p.mu.Lock()
+	for {
+		p.mu.Lock()
+		if !p.stallW || p.err != nil || p.wclosed {
+			break
+		}
+		p.mu.Unlock()
+		c.mu.Lock()
+		closed := c.closed
+		c.mu.Unlock()
+		if closed {
+			return 0, net.ErrClosed
+		}
+		<-p.wch
+	}
+	p.wakeWriters() // cascade to other writers that were blocked with us
 	if p.err != nil {
 		err := p.err
 		p.mu.Unlock()
@@ -199,6 +222,7 @@ func (c *Conn) Close() error {
 	c.wr.mu.Lock()
 	c.wr.wclosed = true
 	c.wr.signal()
+	c.wr.wakeWriters()
 	c.wr.mu.Unlock()
 	c.rd.mu.Lock()
 	c.rd.signal()
@@ -246,6 +270,7 @@ func (p *Pair) Reset() {
 			pp.err = err
 		}
 		pp.signal()
+		pp.wakeWriters()
 		pp.mu.Unlock()
 	}
 }
@@ -258,6 +283,14 @@ func (p *Pair) Partition(on bool) {
 		pp.signal()
 		pp.mu.Unlock()
 	}
+}
+
+// StallWrites makes writes by the given end block (true) or flow again (false).
+func (p *Pair) StallWrites(end *Conn, on bool) {
+	end.wr.mu.Lock()
+	end.wr.stallW = on
+	end.wr.wakeWriters()
+	end.wr.mu.Unlock()
 }
 
 // CutAfter resets the connection once the given end has written n more bytes.
